@@ -528,7 +528,7 @@ def read_case(path):
 class Prop:
     id = "C12"
     lean_module = "MuduoVerif.Props.C12"
-    gen_engines = ["Client"]
+    gen_engines = ["Client", "ClientSkel"]
     drivers = ["client"]
     technique = ("Lean 4 invariant proofs over a model of Connector+TcpClient whose constants, delay update, errno table, "
                  "state tests and destructor branches are re-extracted from /repo (T1) + differential run of the real "
@@ -551,7 +551,8 @@ class Prop:
                   "one iteration later no attempt socket is open) and `destroy_safe_inloop_connection` (a connection nobody "
                   "else holds goes DOWN and is destroyed within two iterations; depends on the generated fact "
                   "Gen.Conn.shutdownHold = weak, F26). The model is tied to the code by T1 (generated constants, guards, errno "
-                  "table, dispatch choices) and by a differential run of the real TcpClient in two build flavours; an "
+                  "table, dispatch choices; `statement_order_tied`: the statement skeleton - significant actions, their order and "
+                  "nesting - of 21 Connector/TcpClient functions extracted from the AST equals the one the model implements) and by a differential run of the real TcpClient in two build flavours; an "
                   "independent oracle evaluates the property on the implementation's own traces")
     level_note = ("Scope guard (explicit, decidable, `okIn`): connect() only on a live client with no attempt, connection, "
                   "pending retry timer or queued connect() outstanding; disconnect/stop/enableRetry only on a live client; "
